@@ -151,7 +151,6 @@ pub fn e2e_scenario(c: &E2eCase) -> crate::e2e::Scenario {
 /// Judge what jet1090 printed for a scenario against the filters' specification.
 pub fn judge_e2e(sc: &crate::e2e::Scenario, out: &crate::e2e::Outcome, rep: &Value) -> Check {
     let fail = |sig: &str, d: String| Failure::new(format!("c11:e2e:{sig}"), d, rep.clone());
-    let marker = format!("{:06x}", crate::e2e::MARKER_ADDR);
     // expectation per distinct frame sent
     let mut want: std::collections::BTreeMap<String, bool> = Default::default();
     for s in &sc.sends {
@@ -170,7 +169,7 @@ pub fn judge_e2e(sc: &crate::e2e::Scenario, out: &crate::e2e::Outcome, rep: &Val
         let mut seen: std::collections::BTreeMap<String, u32> = Default::default();
         for l in lines {
             let v: Value = serde_json::from_str(l).map_err(|e| fail("malformed-line", format!("{what}: {e}: {l}")))?;
-            if v["icao24"] == marker.as_str() {
+            if crate::e2e::is_marker(&v["icao24"]) {
                 continue;
             }
             let f = v["frame"].as_str().unwrap_or("").to_string();
@@ -236,6 +235,12 @@ fn e2e_case() -> impl Strategy<Value = E2eCase> {
         }
         let mut seen = std::collections::BTreeSet::new();
         frames.retain(|f| seen.insert(frame_of(f)));
+        // the four addresses the end-to-end engine uses for its own marker frames stay out of the scenario
+        for f in frames.iter_mut() {
+            if (crate::e2e::MARKER_ADDR..crate::e2e::MARKER_ADDR + 4).contains(&f.addr) {
+                f.addr ^= 0x8;
+            }
+        }
         E2eCase { frames, df_filter, ac_filter, via_config, with_file }
     })
 }
